@@ -822,7 +822,7 @@ func rewriteJarConsistently(data []byte) []byte {
 		switch {
 		case up == "META-INF/MANIFEST.MF":
 			manifest = read(f)
-		case strings.HasPrefix(up, "META-INF/") && strings.HasSuffix(up, ".SF"):
+		case strings.HasPrefix(up, "META-INF/") && !strings.Contains(up[len("META-INF/"):], "/") && strings.HasSuffix(up, ".SF"):
 			sf, sfName = read(f), f.Name
 		case !strings.HasPrefix(up, "META-INF/") && !strings.HasSuffix(f.Name, "/") && len(f.Name) < 50 && !strings.ContainsAny(f.Name, "\r\n"):
 			payload = append(payload, f.Name)
